@@ -552,6 +552,9 @@ class sptensor:
         [1] = 0.5
         [2] = 1.5
         """
+        if i_0 not in range(self.ndims) or i_1 not in range(self.ndims):
+            assert False, "Must contract along dimensions in the range of self.ndims"
+
         if self.shape[i_0] != self.shape[i_1]:
             assert False, "Must contract along equally sized dimensions"
 
